@@ -1,7 +1,7 @@
 from .base_array import base_array
 from .composite import struct, union
 from .exception import ProphyError
-from .six import xrange
+from .six import long, xrange
 
 
 def decode_scalar_array(tp, data, pos, endianness, count):
@@ -225,6 +225,8 @@ def array(type_, **kwargs):
     if kwargs:
         raise ProphyError("unknown arguments to array field")
 
+    if not isinstance(size, (int, long)) or not isinstance(shift, (int, long)):
+        raise ProphyError("size and shift of array must be integers")
     if issubclass(type_, base_array):
         raise ProphyError("array of arrays not allowed")
     if issubclass(type_, bytes):
